@@ -58,6 +58,53 @@ pub fn reg(m: &mut Map) {
         let r = RE::pairing(RG1::generator() * rfr(&a), RG2::generator() * rfr(&b));
         both(ser(&o), ser(&r), false)
     });
+    // cofactor maps of both groups (COFACTOR, COFACTOR_INV of the curve configurations) and subgroup membership.  `clear_cofactor` is NOT
+    // compared: the reference overrides it with the effective cofactor (x - 1), the crate keeps the default (multiplication by the full cofactor);
+    // both clear the cofactor, the images differ by a unit multiple (bls.g?.clear_cofactor shows both), and C16 does not list it
+    opx!(m, "bls.g1.cofactor", (x: fq), rs, {
+        let o = (OG1::generator() * x).into_affine(); let r = (RG1::generator() * rfr(&x)).into_affine();
+        let mut ov = ser(&o.mul_by_cofactor()); ov.extend(ser(&o.mul_by_cofactor_inv())); ov.push(o.is_in_correct_subgroup_assuming_on_curve() as u8);
+        let mut rv = ser(&r.mul_by_cofactor()); rv.extend(ser(&r.mul_by_cofactor_inv())); rv.push(r.is_in_correct_subgroup_assuming_on_curve() as u8);
+        both(ov, rv, true)
+    });
+    opx!(m, "bls.g2.cofactor", (x: fq), rs, {
+        let o = (OG2::generator() * x).into_affine(); let r = (RG2::generator() * rfr(&x)).into_affine();
+        let mut ov = ser(&o.mul_by_cofactor()); ov.extend(ser(&o.mul_by_cofactor_inv())); ov.push(o.is_in_correct_subgroup_assuming_on_curve() as u8);
+        let mut rv = ser(&r.mul_by_cofactor()); rv.extend(ser(&r.mul_by_cofactor_inv())); rv.push(r.is_in_correct_subgroup_assuming_on_curve() as u8);
+        both(ov, rv, true)
+    });
+    opx!(m, "bls.g1.mul_by_cofactor", (x: fq), rs, {
+        let o = (OG1::generator() * x).into_affine(); let r = (RG1::generator() * rfr(&x)).into_affine();
+        both(ser(&o.mul_by_cofactor()), ser(&r.mul_by_cofactor()), true)
+    });
+    opx!(m, "bls.g1.mul_by_cofactor_inv", (x: fq), rs, {
+        let o = (OG1::generator() * x).into_affine(); let r = (RG1::generator() * rfr(&x)).into_affine();
+        both(ser(&o.mul_by_cofactor_inv()), ser(&r.mul_by_cofactor_inv()), true)
+    });
+    opx!(m, "bls.g1.clear_cofactor", (x: fq), rs, {
+        let o = (OG1::generator() * x).into_affine(); let r = (RG1::generator() * rfr(&x)).into_affine();
+        both(ser(&o.clear_cofactor()), ser(&r.clear_cofactor()), true)
+    });
+    opx!(m, "bls.g1.in_subgroup", (x: fq), rs, {
+        let o = (OG1::generator() * x).into_affine(); let r = (RG1::generator() * rfr(&x)).into_affine();
+        both(vec![o.is_in_correct_subgroup_assuming_on_curve() as u8], vec![r.is_in_correct_subgroup_assuming_on_curve() as u8], true)
+    });
+    opx!(m, "bls.g2.mul_by_cofactor", (x: fq), rs, {
+        let o = (OG2::generator() * x).into_affine(); let r = (RG2::generator() * rfr(&x)).into_affine();
+        both(ser(&o.mul_by_cofactor()), ser(&r.mul_by_cofactor()), true)
+    });
+    opx!(m, "bls.g2.mul_by_cofactor_inv", (x: fq), rs, {
+        let o = (OG2::generator() * x).into_affine(); let r = (RG2::generator() * rfr(&x)).into_affine();
+        both(ser(&o.mul_by_cofactor_inv()), ser(&r.mul_by_cofactor_inv()), true)
+    });
+    opx!(m, "bls.g2.clear_cofactor", (x: fq), rs, {
+        let o = (OG2::generator() * x).into_affine(); let r = (RG2::generator() * rfr(&x)).into_affine();
+        both(ser(&o.clear_cofactor()), ser(&r.clear_cofactor()), true)
+    });
+    opx!(m, "bls.g2.in_subgroup", (x: fq), rs, {
+        let o = (OG2::generator() * x).into_affine(); let r = (RG2::generator() * rfr(&x)).into_affine();
+        both(vec![o.is_in_correct_subgroup_assuming_on_curve() as u8], vec![r.is_in_correct_subgroup_assuming_on_curve() as u8], true)
+    });
     // the target field used AS A FIELD (tower configuration: Frobenius coefficients, non-residues): both engines on e(aG1, bG2)
     opx!(m, "bls.gt.frobenius", (k: u128, a: fq, b: fq), rs, {
         use ark_ff::Field;
